@@ -23,6 +23,9 @@ def setup():
     vf.tlc_gen('gen/MC_C08', CFG['quick'], timeout=900)
     vf.build('c08tags', ['c08tags.cpp'])
     vf.tlc_gen('gen/MC_C08tags', TAGS['quick'], timeout=600)      # (same arguments as tags_family: the cache key includes them)
+    vf.tlc_gen('gen/MC_C08xc', 'gen/MC_C08xc_q.cfg', timeout=2400)
+    for c in TRANS['quick']:
+        vf.tlc_gen('gen/MC_C07', c, timeout=2400)
 
 
 # ---------------------------------------------------------------- "tagged events" family (spec/gen/MC_C08tags.tla, spec/trace/Trace_C08tags.tla, notes/C08tags.md)
